@@ -303,6 +303,50 @@ def module_tables(repo: Repo, mod: Module) -> dict[str, dict]:
             return tables[node.id]
         return ev.eval(node, {**tables, **env})
 
+    def bind(target, item, env):
+        if isinstance(target, ast.Name):
+            env[target.id] = item
+        elif isinstance(target, (ast.Tuple, ast.List)):
+            items = list(item)
+            if len(items) != len(target.elts):
+                raise Unknown("loop target arity")
+            for t_, i_ in zip(target.elts, items):
+                bind(t_, i_, env)
+        else:
+            raise Unknown("loop target shape")
+
+    def exec_block(stmts, env):
+        """module-level table-filling code: (nested) for loops over evaluable iterables, `T[k] = v`,
+        `T.update(d)`, local name bindings and evaluable ifs; anything else that writes a table is Unknown"""
+        for s_ in stmts:
+            if isinstance(s_, ast.For):
+                it = value(s_.iter, env)
+                if isinstance(it, dict):
+                    it = list(it)
+                for item in list(it):
+                    env2 = dict(env)
+                    bind(s_.target, item, env2)
+                    exec_block(s_.body, env2)
+                if s_.orelse:
+                    exec_block(s_.orelse, env)
+            elif isinstance(s_, ast.If):
+                exec_block(s_.body if value(s_.test, env) else s_.orelse, env)
+            elif isinstance(s_, ast.Assign) and len(s_.targets) == 1 and isinstance(s_.targets[0], ast.Subscript) and isinstance(s_.targets[0].value, ast.Name) and s_.targets[0].value.id in tables:
+                sub = s_.targets[0]
+                tables[sub.value.id][value(sub.slice, env)] = value(s_.value, env)
+            elif isinstance(s_, ast.Assign) and len(s_.targets) == 1 and isinstance(s_.targets[0], (ast.Name, ast.Tuple)):
+                bind(s_.targets[0], value(s_.value, env), env)
+            elif isinstance(s_, ast.Expr) and isinstance(s_.value, ast.Call) and isinstance(s_.value.func, ast.Attribute) and isinstance(s_.value.func.value, ast.Name) and s_.value.func.value.id in tables and s_.value.func.attr == "update" and len(s_.value.args) == 1:
+                upd = value(s_.value.args[0], env)
+                if not isinstance(upd, dict):
+                    raise Unknown("update with non-dict")
+                tables[s_.value.func.value.id].update(upd)
+            elif isinstance(s_, (ast.Pass, ast.Continue)):
+                if isinstance(s_, ast.Continue):
+                    raise Unknown("continue in a table-filling loop")
+            else:
+                raise Unknown(f"unmodelled statement in table-filling code: {type(s_).__name__}")
+
     for st in mod.tree.body:
         tgt, val = None, None
         if isinstance(st, ast.Assign) and len(st.targets) == 1 and isinstance(st.targets[0], ast.Name):
@@ -316,26 +360,13 @@ def module_tables(repo: Repo, mod: Module) -> dict[str, dict]:
                 except Unknown as exc:
                     raise AnalysisError(f"{mod.name}.{tgt}: {exc}")
             continue
-        if isinstance(st, ast.For) and isinstance(st.target, ast.Name):
-            touched = [
-                s
-                for s in st.body
-                if isinstance(s, ast.Assign)
-                and isinstance(s.targets[0], ast.Subscript)
-                and isinstance(s.targets[0].value, ast.Name)
-                and s.targets[0].value.id in tables
-            ]
-            if not touched:
+        if isinstance(st, ast.For):
+            touches = any(isinstance(n, ast.Name) and n.id in tables for n in ast.walk(st))
+            writes = any(isinstance(n, (ast.Subscript, ast.Attribute)) and isinstance(getattr(n, "ctx", None), (ast.Store, ast.Del)) and isinstance(n.value, ast.Name) and n.value.id in tables for n in ast.walk(st)) or any(isinstance(n, ast.Call) and isinstance(n.func, ast.Attribute) and isinstance(n.func.value, ast.Name) and n.func.value.id in tables and n.func.attr in ("update", "pop", "clear", "setdefault", "popitem", "__setitem__") for n in ast.walk(st))
+            if not (touches and writes):
                 continue
-            if len(touched) != len(st.body):
-                raise AnalysisError(f"{mod.name}:{st.lineno}: table-filling loop has other statements")
             try:
-                it = ev.eval(st.iter, dict(tables))
-                for item in it:
-                    env = {st.target.id: item}
-                    for s in touched:
-                        sub = s.targets[0]
-                        tables[sub.value.id][value(sub.slice, env)] = value(s.value, env)
+                exec_block([st], {})
             except Unknown as exc:
                 raise AnalysisError(f"{mod.name}:{st.lineno}: {exc}")
             continue
